@@ -123,6 +123,8 @@ var descPool = []string{
 	"one\r\ntwo with CR",
 	"multi\n\n\nblank blank",
 	"two  blanks, a\ttab and a no-break\u00a0space in the synopsis\nthen   more   of  them",
+	"synopsis\n   \nafter a line of blanks only\n\t\nafter a line holding a tab",
+	"dos line ends\r\n\r\nafter a blank line that is a lone carriage return",
 }
 
 type genEntry struct {
@@ -254,7 +256,7 @@ func (g *pkgGen) config(i int) genOut {
 	}
 	c.Version = g.semver()
 	c.Epoch = g.pick([]string{"", "", "0", "2", "17"})
-	c.Release = g.pick([]string{"", "", "1", "2", "3.el9", "0", "01", "007", "+2"})
+	c.Release = g.pick([]string{"", "", "1", "2", "3.el9", "0", "01", "007", "+2", "-3"})
 	if g.chance(3) {
 		c.Prerelease = g.pick([]string{"beta1", "rc.1", "alpha-2"})
 	}
